@@ -154,10 +154,16 @@ class TLV:
         result = []
         # do not influence caller!
         tail = ba.copy()
+        skipped = False
         while len(tail) > 0:
             key = tail.pop(0)
             if expected and key not in expected:
-                break
+                # not a type the caller is interested in: skip over this item
+                # instead of dropping everything that follows it
+                length = tail.pop(0) if tail else 0
+                tail = tail[length:]
+                skipped = True
+                continue
             if len(tail) == 0:
                 raise TlvParseException(f"Missing length byte for type {key} while decoding '{ba}'")
             length = tail.pop(0)
@@ -166,10 +172,11 @@ class TLV:
                 raise TlvParseException(f"Not enough data for length {length} while decoding '{ba}'")
             tail = tail[length:]
 
-            if len(result) > 0 and result[-1][0] == key:
+            if len(result) > 0 and result[-1][0] == key and not skipped:
                 result[-1][1] += value
             else:
                 result.append([key, value])
+            skipped = False
         logger.debug("receiving %s", TLV.to_string(result))
         return result
 
